@@ -27,7 +27,7 @@ ASSUMPTIONS = [
 ]
 FORMATS = ["json", "json-raw", "xml", "rdf", "provn"]     # json-raw = json with ensure_ascii=False
 READABLE = ["json", "json-raw", "xml", "rdf"]
-REQUIRED_CLASSES = {"all": ["dest:%s:%s" % (f, d) for f in FORMATS for d in ("str", "text", "binary", "path", "textfile")] +
+REQUIRED_CLASSES = {"all": ["dest:%s:%s" % (f, d) for f in FORMATS for d in ("str", "text", "binary", "path", "textfile", "namedtemp", "spooled")] +
                     ["src:xml:reread_after_failed_attempt", "src:rdf:reread_after_failed_attempt"] +
                     ["src:%s:%s" % (f, s) for f in READABLE for s in ("content_str", "content_bytes", "text", "binary", "path", "textfile")] +
                     ["read:%s:%s:%s" % (f, s, m) for f in READABLE for s in ("path", "text", "binary", "textfile") for m in ("auto", "explicit")]}
@@ -239,6 +239,20 @@ def check(case, ctx):
                     items.append(exc_item(e, "deserialize:%s:textfile_destination" % fmt_name))
         except Exception as e:
             items.append(exc_item(e, "serialize:%s:textfile" % fmt_name))
+        # binary file objects that are NOT io.BufferedIOBase / io.RawIOBase subclasses (tempfile wrappers): still binary
+        try:
+            import tempfile
+            for tname, mk in (("namedtemp", lambda: tempfile.NamedTemporaryFile(dir=wd)), ("spooled", lambda: tempfile.SpooledTemporaryFile(max_size=1 << 30, dir=wd))):
+                with mk() as tf:
+                    c07.deterministic_bnodes()
+                    d.serialize(tf, format=fmt, **kw)
+                    tf.seek(0)
+                    s_tmp = tf.read()
+                ctx.count("dest:%s:%s" % (fmt_name, tname))
+                if not isinstance(s_tmp, bytes) or not _same_text(fmt, s_str, s_tmp.decode("utf-8")):
+                    items.append(_it("text_differs:%s:str_vs_%s" % (fmt_name, tname)))
+        except Exception as e:
+            items.append(exc_item(e, "serialize:%s:tempfile" % fmt_name))
         if not isinstance(s_str, str) or not isinstance(s_text, str) or not isinstance(s_bin, bytes):
             items.append(_it("destination_type:%s" % fmt))
             continue
@@ -303,7 +317,10 @@ def check(case, ctx):
                 same_doc(fmt, d4, "%s:reread_after_failed_attempt" % fmt_name)
             except Exception as e:
                 items.append(exc_item(e, "deserialize:%s:reread_after_failed_attempt" % fmt_name))
-        for name in ("path", "text", "binary", "textfile"):
+        # the order of source kinds rotates from case to case: a detection must not depend on what was read before
+        kinds = ["text", "path", "binary", "textfile"]
+        rot = len(ops) % 4
+        for name in kinds[rot:] + kinds[:rot]:
             for mode in ("auto", "explicit"):
                 src = sources[name]()["source"]
                 try:
